@@ -42,6 +42,18 @@ class DetectVarNames( ast.NodeVisitor ):
         return None
     return ( "expr", compile( ast.Expression( v ), "<index>", "eval" ) )
 
+  def _dotted_const( self, v ):
+    """ ("dotted", code) if v is Name.a.b ... rooted at a closure / global
+    variable ( Idx.VALID, cfg.nbits ): a constant for the instances in which
+    it evaluates to an int / Bits value. """
+    root = v
+    while isinstance( root, ast.Attribute ):
+      root = root.value
+    if isinstance( v, ast.Attribute ) and isinstance( root, ast.Name ) and root.id != 's' and \
+       root.id not in self.locals and ( root.id in self.closure or root.id in self.globals ):
+      return ( "dotted", compile( ast.Expression( v ), "<index>", "eval" ) )
+    return None
+
   def _self_attr( self, v ):
     """ ("attr", names) if v is s.a.b ... : an attribute of the component
     used as an index or slice bound. It is a constant for the instances whose
@@ -91,6 +103,8 @@ class DetectVarNames( ast.NodeVisitor ):
       elif self._self_attr( lower ) is not None:
         self.visit( lower )
         low = self._self_attr( lower )
+      elif self._dotted_const( lower ) is not None:
+        low = self._dotted_const( lower )
 
       if upper is None:
         up = None
@@ -106,6 +120,8 @@ class DetectVarNames( ast.NodeVisitor ):
       elif self._self_attr( upper ) is not None:
         self.visit( upper )
         up = self._self_attr( upper )
+      elif self._dotted_const( upper ) is not None:
+        up = self._dotted_const( upper )
 
       if low != "?" and up != "?":
         slices.append( slice(low, up) )
@@ -127,6 +143,8 @@ class DetectVarNames( ast.NodeVisitor ):
           self.visit( v )
           if self._self_attr( v ) is not None:
             n = self._self_attr( v )
+          elif self._dotted_const( v ) is not None:
+            n = self._dotted_const( v )
         elif isinstance( v, ast.Num ):
           n = v.n
         elif isinstance( v, ast.Name ):
@@ -215,6 +233,8 @@ class DetectVarNames( ast.NodeVisitor ):
       elif self._self_attr( lower ) is not None:
         self.visit( lower )
         low = self._self_attr( lower )
+      elif self._dotted_const( lower ) is not None:
+        low = self._dotted_const( lower )
 
       if upper is None:
         up = None
@@ -230,6 +250,8 @@ class DetectVarNames( ast.NodeVisitor ):
       elif self._self_attr( upper ) is not None:
         self.visit( upper )
         up = self._self_attr( upper )
+      elif self._dotted_const( upper ) is not None:
+        up = self._dotted_const( upper )
 
       if low != "?" and up != "?":
         slices.append( slice(low, up) )
@@ -251,6 +273,8 @@ class DetectVarNames( ast.NodeVisitor ):
           self.visit( v )
           if self._self_attr( v ) is not None:
             n = self._self_attr( v )
+          elif self._dotted_const( v ) is not None:
+            n = self._dotted_const( v )
         elif isinstance( v, ast.Num ):
           n = v.n
         elif isinstance( v, ast.Name ):
